@@ -33,4 +33,55 @@ def unpack4? {α : Type} : List α → Option (α × α × α × α)
   | [a, b, c, d] => some (a, b, c, d)
   | _ => none
 
+/-! ### loops, negative indices, `bitarray` operations (emitted by harness/translate/pyloops.py) -/
+
+/-- `for x in xs: body` with the loop-carried variables as state `s`.  The body returns `none` = it raises,
+`some (s', true)` = it executed `break` with the variables at `s'`, `some (s', false)` = it reached its end. -/
+def loop? {ι σ : Type} : List ι → σ → (ι → σ → Option (σ × Bool)) → Option σ
+  | [], s, _ => some s
+  | x :: xs, s, f => (f x s).bind fun r => if r.2 then some r.1 else loop? xs r.1 f
+
+/-- `list(range(a, b, w))` for arbitrary ints; `none` = ValueError (zero step). -/
+def rangeI? (a b w : Int) : Option (List Int) :=
+  if w = 0 then none
+  else
+    let n : Nat := if 0 < w then ((b - a + w - 1) / w).toNat else ((a - b + (-w) - 1) / (-w)).toNat
+    some ((List.range n).map fun (t : Nat) => a + (t : Int) * w)
+
+/-- `xs[i]` for an arbitrary int `i` (negative = from the end); `none` = IndexError. -/
+def getI? {α : Type} (xs : List α) (i : Int) : Option α :=
+  if 0 ≤ i then xs[i.toNat]?
+  else if (-i).toNat ≤ xs.length then xs[xs.length - (-i).toNat]? else none
+
+/-- `bits[i]` of a bitarray: the bit as the int `0` / `1`. -/
+def bitAt? (bits : Bits) (i : Int) : Option Nat := (getI? bits i).map fun b => if b then 1 else 0
+
+/-- a slice bound: `None` = the default, a negative bound counts from the end (not below 0), everything is clamped to the length. -/
+def bound (len dflt : Nat) : Option Int → Nat
+  | none => dflt
+  | some i => if 0 ≤ i then min i.toNat len else len - (-i).toNat
+
+/-- `xs[lo:hi]` with optional / negative bounds (no step); never raises. -/
+def sliceI {α : Type} (xs : List α) (lo hi : Option Int) : List α :=
+  (xs.take (bound xs.length xs.length hi)).drop (bound xs.length 0 lo)
+
+/-- `bits.frombytes(x)`: appends the bits of every byte, most significant first (a `bitarray()` is big-endian). -/
+def frombytes (bits : Bits) (x : Bytes) : Bits := bits ++ bytesToBits x
+
+/-- `ba2int(bits, signed=s)` of a big-endian bitarray; `none` = ValueError (empty bitarray).  Signed = two's complement over
+`len(bits)` bits. -/
+def ba2int? (signed : Bool) (bits : Bits) : Option Int :=
+  if bits = [] then none
+  else
+    let v := natOfBits bits
+    if signed && decide (2 ^ bits.length ≤ 2 * v) then some ((v : Int) - ((2 ^ bits.length : Nat) : Int)) else some (v : Int)
+
+/-- `TvmBitarray(size, bits)` (boc/tvm_bitarray.py): raises when `size > 1023` (the check of `__init__`, tied by C07's
+`sizeTooLarge`), otherwise a bitarray with the given bits (their number is NOT checked there). -/
+def tvmBitarray? (size : Nat) (bits : Bits) : Option Bits := if size > 1023 then none else some bits
+
+/-- `xs[i][field] = v` as a functional update of element `i`; `none` = IndexError. -/
+def setAt? {α : Type} (xs : List α) (i : Nat) (f : α → α) : Option (List α) :=
+  (xs[i]?).map fun x => xs.set i (f x)
+
 end TonVerif.Py
